@@ -7,6 +7,8 @@ import (
 	"sort"
 	"strconv"
 	"strings"
+	"sync"
+	"time"
 
 	"istio.io/istio/pkg/kube/krt"
 	"verif/harness/vlib"
@@ -79,12 +81,13 @@ func (p *jpipe) expectBar(i int) (int, int) {
 }
 
 func (p *jpipe) sync(i int) bool {
-	p.bar[i]++
+	p.bar[i] += 2 // by two: the raw value of this bump must differ from the merged value of the previous one
 	p.subs[i].UpdateObject(OObj{Key: 90 + i, Val: p.bar[i]})
 	p.steps = append(p.steps, vlib.App("JPut", vlib.NI(i), vlib.NI(90+i), vlib.NI(p.bar[i])))
 	k, v := p.expectBar(i)
 	for _, h := range p.handlers {
-		if !h.waitVal(k, v) {
+		// either the merged or the raw barrier value: what the contents should be is the oracle's business
+		if !h.waitVal2(k, v, p.bar[i]) {
 			p.failed = fmt.Sprintf("handler h%d never saw barrier %d=%d of sub %d", h.id, k, v, i)
 			return false
 		}
@@ -161,6 +164,59 @@ func (p *jpipe) finish(c *vlib.Collector, id int, tg []string) {
 	}
 	term := vlib.App("JoinHist", vlib.NI(id), vlib.NI(p.kind), vlib.NI(len(p.subs)), vlib.List(p.steps))
 	c.Add(vlib.Case{ID: id, Term: term, Tags: tg, Sample: p.sample})
+}
+
+const findingInflight = "join-inflight-unknown-key"
+
+// waitVal2 is waitVal accepting either of two values.
+func (r *rec) waitVal2(k, v1, v2 int) bool {
+	deadline := time.NewTimer(60 * time.Second)
+	defer deadline.Stop()
+	for {
+		r.mu.Lock()
+		got, ok := r.cur[k]
+		r.mu.Unlock()
+		if ok && (got == v1 || got == v2) {
+			return true
+		}
+		select {
+		case <-r.notify:
+		case <-deadline.C:
+			return false
+		}
+	}
+}
+
+// inflight: the same new key is added to two sub-collections of a checked join at the same time; the two events
+// are then in flight together (schedule dependent; HEAD answers with an Update of an unknown key).
+func runJoinInflight(c *vlib.Collector, id int, r *vlib.Rand) {
+	p := newJPipe(jChecked, 2)
+	p.register(1)
+	for n := 0; n < 12 && p.failed == ""; n++ {
+		k := 1 + n
+		var wg sync.WaitGroup
+		wg.Add(2)
+		go func() { defer wg.Done(); p.subs[0].UpdateObject(OObj{Key: k, Val: 1}) }()
+		go func() { defer wg.Done(); p.subs[1].UpdateObject(OObj{Key: k, Val: 2}) }()
+		wg.Wait()
+		p.cur[0][k], p.cur[1][k] = 1, 2
+		p.steps = append(p.steps, vlib.App("JPut", vlib.NI(0), vlib.NI(k), vlib.NI(1)), vlib.App("JPut", vlib.NI(1), vlib.NI(k), vlib.NI(2)))
+		p.sample = append(p.sample, fmt.Sprintf("sub0.put(%d=1) || sub1.put(%d=2)", k, k))
+		// quiesce both listeners; only the second barrier is followed by an observation
+		p.bar[0] += 2
+		p.subs[0].UpdateObject(OObj{Key: 90, Val: p.bar[0]})
+		p.steps = append(p.steps, vlib.App("JPut", vlib.NI(0), vlib.NI(90), vlib.NI(p.bar[0])))
+		for _, h := range p.handlers {
+			if !h.waitVal(90, p.bar[0]) {
+				p.failed = "barrier of sub 0 not seen"
+			}
+		}
+		if p.failed == "" {
+			p.sync(1)
+		}
+	}
+	c.FindingOf[id] = findingInflight
+	p.finish(c, id, []string{"class-join-inflight-same-key"})
 }
 
 const findingDoubleDelete = "mergejoin-delete-emitted-twice"
@@ -245,6 +301,13 @@ func runJoinFamilies(c *vlib.Collector, root *vlib.Rand, id int) int {
 			}
 			sort.Strings(ts)
 			p.finish(c, id, ts)
+		}
+	}
+	for n := 0; n < vlib.Scale(2, 10); n++ {
+		r := root.Sub()
+		id++
+		if c.Wanted(id) {
+			runJoinInflight(c, id, r)
 		}
 	}
 	return id
